@@ -22,6 +22,11 @@ CHECKS = {
             "For every non-empty retained version (up to 4 newest per checkpoint) and the working tree, for every probe key: proof kind, content, verification against the version's root, non-membership neighbours = adjacent keys of the model, wrong-kind requests must fail, and the proof must not verify for another value / key / kind / root of a version where the claim is false.",
             "Trusted: the ics23 verifier and IavlSpec; model M. Leaves with an empty value cannot be verified by ics23 and are checked for kind/content only.",
             "DESIGN.md §3 C03"),
+    "C05": ("fault_enumeration",
+            "runtime monitoring with systematic crash-point enumeration: physical-write log recorded at the storage seam, every prefix image materialised and judged by reopen + model/reference oracle + retry of the interrupted operation",
+            "Every boundary between two physical batch writes of every SaveVersion, DeleteVersionsTo, LoadVersionForOverwriting, fast-index build on open and import commit in generated histories (flush thresholds 150..default) is materialised as a storage image; a fresh tree must Load() it, show the version set before or after (contiguous intermediate for multi-version deletions), read every version correctly on every path (walk, Iterator, fast Get, GetVersioned) with both fast-index settings, and repeating the operation must reach the crash-free result.",
+            "Crash model as stated by the property (atomic ordered batch writes; no torn batches; backend durability not modelled). Oracles M and R.",
+            "DESIGN.md §3 C05"),
     "C07": ("exploration",
             "runtime monitoring: differential monitor indexed reads vs tree-walk reads after every step, plus raw fast-index audit with the independent decoder, every (re)open choosing index on/off and the version to load",
             "After every step: Get vs GetWithIndex, MutableTree.Iterator/Iterate vs IterateRange, GetVersioned vs GetImmutable(v).GetWithIndex on working tree (incl. uncommitted changes), latest and older versions; raw 'f' entries and label vs the model after every commit/open with the index enabled.",
